@@ -8,6 +8,8 @@ ALIGNS = [1, 2, 4, 8, 16, 32, 64]
 
 
 def pick_align(rnd, bias8=0.5):
+    if BIAS['bits'] and rnd.random() < 0.8:
+        return rnd.choice([1, 1, 1, 2, 4])
     if rnd.random() < bias8:
         return rnd.choice([8, 8, 16, 32, 64])
     return rnd.choice(ALIGNS)
@@ -18,6 +20,7 @@ import threading
 
 class _Bias(threading.local):
     pad = False      # arrays of elements whose alignment exceeds their size (padding between elements)
+    bits = False     # bit-packed layouts: sub-byte alignments, sizes that are not multiples of 8 (features too)
 
     def __getitem__(self, k):
         return getattr(self, k)
@@ -97,9 +100,22 @@ def gen_member_ft(rnd):
     return gen_elem(rnd)
 
 
+# names which the tracer itself uses for header / packet context members: legal for user members of the
+# contexts and payload (they are only reserved among the packet context extra members)
+SPECIAL_NAMES = ['id', 'timestamp', 'magic', 'uuid', 'stream_id', 'packet_size', 'content_size', 'events_discarded',
+                 'timestamp_begin', 'timestamp_end', 'packet_seq_num']
+
+
 def gen_members(rnd, prefix, nmin=0, nmax=4):
     n = rnd.randint(nmin, nmax)
-    return [{f'{prefix}{i}': {'field-type': gen_member_ft(rnd)}} for i in range(n)]
+    names = [f'{prefix}{i}' for i in range(n)]
+    if prefix != 'x':
+        pool = list(SPECIAL_NAMES)
+        rnd.shuffle(pool)
+        for i in range(n):
+            if rnd.random() < 0.12:
+                names[i] = pool.pop()
+    return [{names[i]: {'field-type': gen_member_ft(rnd)}} for i in range(n)]
 
 
 def gen_struct(rnd, prefix, nmin=0, nmax=4):
@@ -111,11 +127,11 @@ def gen_struct(rnd, prefix, nmin=0, nmax=4):
 
 def gen_feature_uint(rnd, minsize=1, sizes=None):
     """feature field type: true (default), or a custom unsigned integer / enumeration"""
-    if rnd.random() < 0.4:
+    if rnd.random() < (0.15 if BIAS['bits'] else 0.4):
         return True
     size = rnd.choice(sizes) if sizes else rnd.randint(minsize, 64)
     ft = {'class': 'uint', 'size': size}
-    if rnd.random() < 0.5:
+    if rnd.random() < (0.9 if BIAS['bits'] else 0.5):
         ft['alignment'] = pick_align(rnd, 0.5)
     return ft
 
@@ -130,12 +146,16 @@ def gen_config(rnd, ndst=None, profile='layout'):
 def gen_config_tree(rnd, ndst=None, profile='layout'):
     """Returns (configuration node as plain dicts/lists, info)."""
     BIAS['pad'] = profile.endswith('-pad')
+    BIAS['bits'] = profile.endswith('-bits')
     if BIAS['pad']:
         profile = profile[:-4]
+    if BIAS['bits']:
+        profile = profile[:-5]
     try:
         return _gen_config_tree(rnd, ndst, profile)
     finally:
         BIAS['pad'] = False
+        BIAS['bits'] = False
 
 
 def _gen_config_tree(rnd, ndst, profile):
@@ -249,7 +269,7 @@ def _gen_config_tree(rnd, ndst, profile):
         for en in enames:
             e = {}
             if rnd.random() < 0.3:
-                e['log-level'] = rnd.choice([0, 1, 7, 14, 'warning'])
+                e['log-level'] = rnd.choice([0, 1, 7, 14, 'warning', 'emerg', 'emerg'])
             if rnd.random() < 0.35:
                 e['specific-context-field-type'] = gen_struct(rnd, 's', 0, 2)
             if rnd.random() < 0.9:
@@ -263,7 +283,7 @@ def _gen_config_tree(rnd, ndst, profile):
             default_dst = dname
         dsts[dname] = d
     tt['data-stream-types'] = dsts
-    tt['$log-level-aliases'] = {'warning': 4, 'dbg': 14}
+    tt['$log-level-aliases'] = {'warning': 4, 'dbg': 14, 'emerg': 0}
     cfg = {'trace': {'type': tt}}
     if rnd.random() < 0.3:
         cfg['trace']['environment'] = {'a': 1, 'b': 'x"y\\z', 'neg': -5}
